@@ -7,9 +7,11 @@ from props.engcommon import EngProp
 
 def themed_case(rng, g: EGen, tier):
     """one record set + one query; returns (recs, oracle coq, sel, pipe, kinds)"""
-    theme = rng.choice(["plain", "plain", "json", "json", "logfmt", "ip", "attrs", "attrs", "mixed", "distinct", "distinct2", "rewrite", "rewrite", "decolor", "unpack", "binary"])
+    theme = rng.choice(["plain", "plain", "json", "json", "logfmt", "ip", "attrs", "attrs", "mixed", "distinct", "distinct2", "rewrite", "rewrite", "decolor", "unpack", "binary", "nan"])
     if theme in ("distinct2", "rewrite", "decolor", "unpack"):
         return special_case(rng, g, theme)
+    if theme == "nan":
+        return nan_case(rng, g)
     n = rng.randint(0, 9)
     jsonl, lfl, deco = [], [], []
     typed = []          # JSON keys whose value is a bool / object / array in some record
@@ -84,12 +86,42 @@ def themed_case(rng, g: EGen, tier):
         txt, coq = egen.gen_ippat(rng, egen.ADDRS)
         p = {"k": "ip", "l": "addr", "op": op, "v": txt, "coq": "EPIP %s %s %s" % (cbytes(B("addr")), egen.cbool(op == "!="), coq)}
         pipe.append({"k": "filter", "p": p, "coq": "ELabelFilter (%s)" % p["coq"]})
+    if theme == "attrs" and rng.random() < 0.3:
+        # not-a-number and infinite label values under a number comparison (IEEE 754: every ordered comparison with NaN is false, != is true)
+        for r in recs:
+            if rng.random() < 0.7:
+                r["attrs"] = [(k, v) for k, v in r["attrs"] if k != "n"] + [("n", rng.choice(["NaN", "nan", "NAN", "+Inf", "-Inf", "Infinity", "5", "+nan", "7"]))]
+        op = rng.choice(["<", "<=", "<", "<=", ">", ">=", "==", "!="])
+        text = rng.choice(["5", "0", "1000"])
+        p = {"k": "num", "l": "n", "op": op, "text": text, "v": float(text), "coq": "EPNum %s %s (fbits %d)" % (cbytes(B("n")), egen.OPNAME[op], egen.fbits(float(text)))}
+        pipe.append({"k": "filter", "p": p, "coq": "ELabelFilter (%s)" % p["coq"]})
     if theme == "distinct" and not any(s["k"] == "distinct" for s in pipe):
         pipe.insert(rng.randint(0, len(pipe)), g.st_distinct(rng.sample(egen.QLABELS, rng.randint(1, 2))))
         pipe.append(g.line_filter(words=words))      # a line filter AFTER distinct: the D12 shape
     sel = g.selector()
     pipe = g.disambiguate(pipe)
     return recs, oracles_coq(jsonl=dedup(jsonl), logfmt=dedup(lfl), decolor=deco), sel, pipe, theme
+
+
+def nan_case(rng, g: EGen):
+    """not-a-number and infinite label values under number comparisons (IEEE 754: every ordered comparison with NaN is false, == false, != true)"""
+    n = rng.randint(2, 8)
+    recs = g.records([rng.choice(egen.PLAIN_LINES[:8]) for _ in range(n)], with_attrs=False)
+    for r in recs:
+        r["attrs"] = [("n", rng.choice(["NaN", "nan", "NAN", "+Inf", "-Inf", "Infinity", "5", "+nan", "7", "-nan", "inf", "0", "1000"]))]
+        if rng.random() < 0.2:
+            r["attrs"] = []
+    def num(op, text):
+        return {"k": "num", "l": "n", "op": op, "text": text, "v": float(text), "coq": "EPNum %s %s (fbits %d)" % (cbytes(B("n")), egen.OPNAME[op], egen.fbits(float(text)))}
+    p = num(rng.choice(["<", "<=", "<", "<=", ">", ">=", "==", "!="]), rng.choice(["5", "0", "1000"]))
+    if rng.random() < 0.3:
+        q2 = num(rng.choice(["<", "<=", ">", ">="]), rng.choice(["5", "7"]))
+        op = rng.choice(["and", "or"])
+        p = {"k": "bin", "op": op, "a": p, "b": q2, "coq": "%s (%s) (%s)" % ("EPAnd" if op == "and" else "EPOr", p["coq"], q2["coq"])}
+    pipe = [{"k": "filter", "p": p, "coq": "ELabelFilter (%s)" % p["coq"]}]
+    if rng.random() < 0.3:
+        pipe.insert(0, g.line_filter(words=["error", "GET", "a", "info"]))
+    return recs, oracles_coq(), g.selector(extra=False), pipe, "nan"
 
 
 def special_case(rng, g: EGen, theme):
